@@ -815,15 +815,13 @@ theorem filterBlocksToCommit_translation_refines_model (blocks : List (BitVec 64
     unfold Pool.isContractSend
     simp only [Gen.BlockTypeContractSend, bne, Bool.not_eq_eq_eq_not, Bool.not_not]
     rw [Bool.eq_iff_iff]; simp only [beq_iff_eq, ← BitVec.toNat_inj]; rfl
-  simp only [hoob, hat, hsum, hM, hcs, Bool.false_eq_true, if_false, decide_eq_true_eq]
-  by_cases h1 : Pool.isContractSend b.toNat = true
-  · simp [h1]
-  · simp only [h1, Bool.not_false, if_true, Bool.false_eq_true, if_false]
-    by_cases h2 : tc.length + (batch ++ [b]).length > Gen.MaxAccountBlocksInMomentum
-    · have h2' : ((tc.length + (batch ++ [b]).length : Nat) : Int) > (Gen.MaxAccountBlocksInMomentum : Int) := by omega
-      simp only [h2, h2', if_true]
-    · have h2' : ¬ ((tc.length + (batch ++ [b]).length : Nat) : Int) > (Gen.MaxAccountBlocksInMomentum : Int) := by omega
-      simp only [h2, h2', if_false]
+  have hcs2 : (b == 4#64) = Pool.isContractSend b.toNat := by
+    rw [← Bool.not_not (b == 4#64)]; exact (congrArg (!·) hcs).trans (Bool.not_not _)
+  have hgt : ∀ n : Nat, ((n : Int) > (Gen.MaxAccountBlocksInMomentum : Int)) ↔ n > Gen.MaxAccountBlocksInMomentum := by
+    intro n; omega
+  simp only [hoob, hat, hsum, hM, hcs, hcs2, hgt, Bool.false_eq_true, if_false, decide_eq_true_eq]
+  all_goals (by_cases h1 : Pool.isContractSend b.toNat = true <;>
+    by_cases h2 : tc.length + (batch ++ [b]).length > Gen.MaxAccountBlocksInMomentum <;> simp [h1, h2])
 
 example : Translated.filterBlocksToCommit [2#64, 4#64, 4#64, 3#64, 4#64] = .ok [2#64, 4#64, 4#64, 3#64] := by decide
 
